@@ -213,6 +213,20 @@ def real_behaviour(b, rng, n_objects=12, n_steps=60):
             try:
                 if k == 'T':
                     d.call(o, str(rng.choice(['matrix', 'states_next', 'states_prev'])))
+                elif k == 'J' and rng.random() < 0.12:
+                    # a consumer of the memoised values: the plotting front-ends read matrix()/collective()/... of the object.
+                    # Whatever they do with the values, later calls must still equal an uncached recomputation.
+                    name = str(rng.choice(['plot_jumps_3d', 'plot_jumps_vs_distance', 'plot_jumps_vs_time', 'plot_collective_jumps']))
+                    backend = str(rng.choice(['plotly', 'matplotlib']))
+                    try:
+                        fig = getattr(d.objs[o], name)(backend=backend)
+                        if backend == 'matplotlib':
+                            import matplotlib.pyplot as plt
+                            plt.close('all')
+                        del fig
+                    except Exception:       # noqa -- a plot that cannot be drawn for a tiny system is not C20's business
+                        pass
+                    d.call(o, 'matrix')
                 elif k == 'J':
                     c = int(rng.integers(0, 6))
                     if c == 0:
@@ -247,15 +261,25 @@ def real_behaviour(b, rng, n_objects=12, n_steps=60):
                     else:
                         d.call(o, '_counter')
                 elif k == 'M':
-                    c = int(rng.integers(0, 4))
+                    c = int(rng.integers(0, 9))
                     if c == 0:
                         d.call(o, 'speed')
                     elif c == 1:
                         d.call(o, 'tracer_diffusivity', dimensions=int(rng.integers(1, 4)))
                     elif c == 2:
                         d.call(o, 'particle_density')
-                    else:
+                    elif c == 3:
                         d.call(o, 'amplitudes')
+                    elif c == 4:
+                        d.call(o, 'vibration_amplitude')
+                    elif c == 5:
+                        d.call(o, 'attempt_frequency')
+                    elif c == 6:
+                        d.call(o, 'mol_per_liter')
+                    elif c == 7:
+                        d.call(o, 'tracer_conductivity', z_ion=int(rng.integers(1, 3)), dimensions=int(rng.integers(1, 4)))
+                    else:
+                        d.call(o, 'tracer_diffusivity_center_of_mass', dimensions=int(rng.integers(1, 4)))
                 elif k == 'C':
                     d.call(o, str(rng.choice(['site_pair_count_matrix', 'multiple_collective', 'site_pair_count_matrix_labels'])))
             except (ValueError, IndexError):
